@@ -1,6 +1,17 @@
 (** Extraction of the executable models.  Only [ExtrOcamlBasic] is used: [N], [positive],
     [nat] stay the extracted inductive datatypes. *)
-From updog Require Import Prelude LRU.
+From updog Require Import Prelude LRU Index.
 Require Import ExtrOcamlBasic.
 Extraction Language OCaml.
-Extraction "model.ml" lru_observe.
+
+(** The data-plane model instantiated with the idealised injective hash. *)
+Definition m_build_store := build_store H_enc.
+Definition m_open_index := open_index.
+Definition m_execute := execute H_enc.
+Definition m_get_schema := get_schema.
+Definition m_add_rows_mem (rows : list row) := (w_add_rows H_enc (w_init) rows).1.
+Definition m_add_rows_big (rows : list row) := (b_add_rows H_enc (b_init) rows).1.
+
+Extraction "model.ml" lru_observe
+  m_build_store m_open_index m_execute m_get_schema m_add_rows_mem m_add_rows_big
+  spec_execute spec_schema.
